@@ -39,7 +39,7 @@ RULE = (
     "the unpolarised space-like anomalous-dimension modules as1/as2 and matching modules as1/as2 (found by introspection, "
     "arguments by parameter name); thorough tier adds quad_ker_ad / quad_ker_ome on random (u, label, configuration) and a "
     "tiny end-to-end solve.  Inputs: N on the solver's Talbot contours (eko.mellin.Path) and off-contour (box Re N in [-6,40], "
-    "|Im N| <= 40, at least 0.25 away from the poles at the integers <= 1 when |Im N| < 0.5), couplings "
+    "|Im N| <= 40, at least 0.75 away from the poles at the integers <= 1; the contours keep >= 0.9), couplings "
     "log-uniform in [0.002,0.05], random complex gamma towers |gamma_k| <= 10^(k+1), jittered log grids.  Oracle: same "
     "structure and shape; integers / booleans identical; floats within 1e-12 of the largest modulus of the same array; an "
     "exception on one side only, a numba compile/typing error, or a crash of the compiled worker is a violation.  "
@@ -58,10 +58,10 @@ ASSUMPTIONS = [
     "arguments are passed in the types production passes them (order tuples of ints, ndarray towers, Python lists for "
     "beta vectors - numba 'reflected lists')",
     "quad_ker_ad / quad_ker_ome and the end-to-end solve (9 min cold compile each) are exercised in the thorough tier only; "
-    "their tolerance is 1e-10 relative to max(|value|, |Mellin-inversion factor QuadKerBase.integrand|) (solve: relative to "
-    "max(1, largest operator entry)) because the kernel is the real part of factor x kernel element (cancellation against "
-    "a modulus not visible in the result: 1.6e-2 relative noise observed on a value of 4e-21) and the solve feeds it "
-    "through adaptive quadrature; the factor itself is compared at 1e-12",
+    "their tolerance is 1e-10 relative to max(|value|, peak modulus of the Mellin-inversion factor QuadKerBase.integrand along "
+    "the contour) - the solver integrates the kernel over the contour, and in its tail the values are cancellation "
+    "residues (observed 4.5e-9 relative noise on a factor 3e-17 below its peak); the factor itself is compared at 1e-12 "
+    "of its peak; solve: 1e-10 of max(1, largest operator entry) since the kernels pass through adaptive quadrature",
 ]
 LEVEL_TEXT = (
     "Generated-input differential between the compiled and the interpreted execution of the same sources, covering every "
@@ -73,10 +73,11 @@ TOL = 1e-12
 # cancellations between O(1) terms (a Lagrange basis polynomial at a foreign node, harmonic-sum combinations at large N)
 SCALE_FLOOR = {"interpolation": 1.0, "harmonics": 1.0, "ad_as12": 1.0, "ome_as12": 1.0, "qcd_kernels": 1.0, "qed_kernels": 1.0,
                "solve": 1.0}
-# The integration kernels return the REAL PART of (Mellin-inversion factor x kernel element): the result can be orders of
-# magnitude below the modulus it was cancelled from (measured: 1.6e-2 relative noise on a value of 4e-21).  The callers
-# therefore also return the complex factor (QuadKerBase.integrand) and the kernel value is compared relative to
-# max(|value|, |factor|); the kernel element's own magnitude (O(1)..O(100)) is not visible from outside, hence 1e-10.
+# The integration kernels return Re(Mellin-inversion factor x kernel element) at one point u of the contour.  What the
+# solver uses is the integral over u, so the natural scale is the PEAK of the factor along the contour (u = 0.5..0.7);
+# in the tail the factor and the kernel are cancellation residues many orders below it.  The callers therefore also
+# return the factor and its peak (QuadKerBase.integrand); the kernel value is compared to 1e-10 of max(|value|, peak)
+# (the kernel element's own magnitude, O(1)..O(100), is not visible from outside), the factor to 1e-12 of the peak.
 # The end-to-end solve passes these values through adaptive quadrature.
 TOL_GROUP = {"quad_ker_ad": 1e-10, "quad_ker_ome": 1e-10, "solve": 1e-10}
 QUICK_GROUPS = ("qcd_kernels", "ome_as12", "ad_as12", "qed_kernels", "harmonics", "scale_variations", "couplings", "interpolation")
@@ -237,7 +238,7 @@ def unit():
 
 
 def st_n(singlet=None):
-    """Mellin moment [re, im]: solver contours (t in [0.5,0.95]) or a box, >= 0.25 away from the integers <= 1."""
+    """Mellin moment [re, im]: solver contours (t in [0.5,0.95]) or a box, >= 0.75 away from the integers <= 1."""
     st = _st()
     from eko import mellin
 
@@ -246,10 +247,11 @@ def st_n(singlet=None):
         return [n.real, n.imag]
 
     def box(re, frac, im):
-        if re < 1.2 and abs(im) < 0.5:
-            # near the real axis keep 0.25 away from the poles at the integers <= 1: rounding is amplified by 1/d^k there
-            # (observed 4e-12 at d = 0.1), and the solver's contours stay >= 0.6 away from them
-            re = math.floor(re) + 0.25 + 0.5 * frac
+        if re < 1.5 and abs(im) < 0.75:
+            # keep >= 0.75 away from the poles at the integers <= 1 (the solver's contours stay >= 0.9 away): the closed
+            # forms carry prefactors up to 1/(N+k)^6, so rounding is amplified by d^-6 near a pole (observed 1.6e-12 for
+            # lm15m1 at d = 0.6, 4e-12 for A_hg at d = 0.1) although the two executions agree operation by operation
+            im = math.copysign(0.75 + abs(im), im if im != 0.0 else 1.0)
         return [re, im]
 
     sing = st.booleans() if singlet is None else st.just(bool(singlet))
@@ -886,6 +888,15 @@ def strat_quad_ker_ome(tier):
     return one()
 
 
+def _mellin_factor(quad_ker, vals, logx, areas):
+    """(Mellin-inversion factor at u, its peak modulus along the contour) from the QuadKerBase jitclass."""
+    factor = complex(quad_ker.QuadKerBase(vals["u"], vals["is_log"], logx, vals["mode0"]).integrand(areas))
+    peak = max(
+        abs(complex(quad_ker.QuadKerBase(u0, vals["is_log"], logx, vals["mode0"]).integrand(areas))) for u0 in (0.5, 0.6, 0.7)
+    )
+    return factor, float(peak)
+
+
 def call_quad_ker(fn, a):
     import importlib
 
@@ -910,16 +921,16 @@ def call_quad_ker(fn, a):
             use_fhmruvv=bool(a["fhmruvv"]),
         )
         vals["Lsv"] = vals["L"]
-        factor = quad_ker.QuadKerBase(vals["u"], vals["is_log"], logx, vals["mode0"]).integrand(areas)
-        return (quad_ker.quad_ker_ad(*[vals[p] for p in params]), complex(factor))
+        factor, peak = _mellin_factor(quad_ker, vals, logx, areas)
+        return (quad_ker.quad_ker_ad(*[vals[p] for p in params]), factor, peak)
     params = list(inspect.signature(getattr(quad_ker.quad_ker_ome, "py_func", quad_ker.quad_ker_ome)).parameters)
     vals = dict(
         u=float(a["u"]), order=order, mode0=int(a["label"][0]), mode1=int(a["label"][1]), is_log=bool(a["log"]), logx=logx,
         areas=areas, a_s=float(a["a_s"]), nf=int(a["nf"]), L=float(a["L"]), sv_mode=int(a["sv"]), Lsv=float(a["Lsv"]),
         backward_method=int(a["backward"]), is_msbar=bool(a["msbar"]), is_polarized=bool(a["pol"]), is_time_like=bool(a["tl"]),
     )
-    factor = quad_ker.QuadKerBase(vals["u"], vals["is_log"], logx, vals["mode0"]).integrand(areas)
-    return (quad_ker.quad_ker_ome(*[vals[p] for p in params]), complex(factor))
+    factor, peak = _mellin_factor(quad_ker, vals, logx, areas)
+    return (quad_ker.quad_ker_ome(*[vals[p] for p in params]), factor, peak)
 
 
 def strat_solve(tier):
@@ -1094,12 +1105,15 @@ def judge(case, ra, rb):
             + "; interpreted " + (f"raised {eb}: {rb['msg'][:300]}" if eb else "returned a value"),
         )
         return res
-    if g in ("quad_ker_ad", "quad_ker_ome") and rb["ok"]["k"] == "t" and ra["ok"]["k"] == "t" and len(ra["ok"]["v"]) == 2:
-        # (kernel value, Mellin-inversion factor): the value is Re(factor * kernel element) - its natural scale is the
-        # modulus of the factor (kernel elements are O(1) or larger), not the possibly cancelled real part
-        modulus = float(np.max(np.abs(_num(rb["ok"]["v"][1])[1])))
-        diffs = compare(ra["ok"]["v"][0], rb["ok"]["v"][0], "kernel", floor=modulus, tol=TOL_GROUP[g])
-        diffs += compare(ra["ok"]["v"][1], rb["ok"]["v"][1], "integrand-factor", floor=0.0, tol=TOL)
+    if g in ("quad_ker_ad", "quad_ker_ome") and rb["ok"]["k"] == "t" and ra["ok"]["k"] == "t" and len(ra["ok"]["v"]) == 3:
+        # (kernel value, Mellin-inversion factor at u, peak modulus of that factor along the contour).  The solver
+        # integrates the kernel over u, so the scale that matters is the peak of the integrand (at the real-axis crossing),
+        # not the local value: in the tail (u -> 0.95) both the factor and Re(factor * element) are cancellation residues
+        # 1e-15 and more below the peak (observed: 4.5e-9 relative noise on a factor of 1.7e-14 whose peak is 480).
+        peak = float(_num(rb["ok"]["v"][2])[1][0].real)
+        diffs = compare(ra["ok"]["v"][0], rb["ok"]["v"][0], "kernel", floor=peak, tol=TOL_GROUP[g])
+        diffs += compare(ra["ok"]["v"][1], rb["ok"]["v"][1], "integrand-factor", floor=peak, tol=TOL)
+        diffs += compare(ra["ok"]["v"][2], rb["ok"]["v"][2], "integrand-peak", floor=0.0, tol=TOL)
     else:
         diffs = compare(ra["ok"], rb["ok"], floor=SCALE_FLOOR.get(g, 0.0), tol=TOL_GROUP.get(g, TOL))
     res.nontrivial = is_float_result(rb["ok"])
